@@ -294,7 +294,7 @@ pub fn build(r: &RawReq, client: Uuid, other: Uuid, id: Uuid) -> Built {
             }
         }
     }
-    Built { req: HttpReq { method: method.to_string(), path, headers, chunks }, expect, endpoint, body, reasons }
+    Built { req: HttpReq { method: method.to_string(), path, headers, chunks, stalls: vec![] }, expect, endpoint, body, reasons }
 }
 
 fn idform_path() -> impl Strategy<Value = IdForm> {
@@ -624,7 +624,11 @@ pub fn check_limit(lc: &LimitCase, c20: bool, st: &mut Stats) -> CheckResult {
     let chunks = cut(&body, &lc.sizes);
     let nchunks = chunks.len();
     let before = drv.dump(&[c], &[first]).map_err(|e| Fail::Violation(format!("dump: {e:#}")))?;
-    let req = if lc.snapshot { crate::driver::req_add_snapshot(c, first, chunks) } else { crate::driver::req_add_version(c, first, chunks) };
+    let mut req = if lc.snapshot { crate::driver::req_add_snapshot(c, first, chunks) } else { crate::driver::req_add_version(c, first, chunks) };
+    if lc.class % 2 == 0 || !lc.sizes.is_empty() && lc.sizes.len() % 2 == 0 {
+        // an unchunked upload declares its length up front
+        req.headers.push(("Content-Length".into(), len.to_string().into_bytes()));
+    }
     let resp = drv.http_call(req.clone());
     let what = format!("{} with a body of limit{:+} bytes in {nchunks} chunks on {:?}", if lc.snapshot { "AddSnapshot" } else { "AddVersion" }, lc.delta, lc.backend);
     st.check();
@@ -801,6 +805,13 @@ fn check_twin(tc: &TCase, st: &mut Stats) -> CheckResult {
     let mut hl = Hist::new(case, tc.backend, Via::Lib, Oracles::default())?;
     hh.drv.http_log = Some(vec![]);
     hh.drv.log_body_limit = usize::MAX;
+    // a right media type may carry parameters (RFC 9110 8.3.1); they do not change what the
+    // request is, so the outcome must still be the library's
+    hh.drv.ct_params = match case.salt % 6 {
+        0 => Some("; charset=utf-8".to_string()),
+        1 => Some(";v=1".to_string()),
+        _ => None,
+    };
     let mut quiet = Stats::default();
     quiet.frozen = true;
     for (idx, op) in case.ops.iter().enumerate() {
@@ -1194,6 +1205,7 @@ pub fn run(id: &str, tier: Tier, seed: u64) -> Report {
                 "generated histories executed simultaneously through the HTTP handlers and through the library on twin storages; every HTTP response is compared with the image of the library outcome under the table of the statement: status, presence and absence of X-Version-Id / X-Parent-Version-Id / X-Snapshot-Request (urgency=low|high exactly when urgency is not none), Content-Type, body; ids through chain positions. Non-trivial: urgency low/none, conflict or gone after real history, found child after >=3 versions, unknown client, declined snapshot; distinct by (endpoint, outcome class, state class, urgency).",
             );
             rep.assume("the library twin performs the documented create-on-AddVersion for unknown clients");
+            rep.assume("a third of the histories send the right media type with a parameter (; charset=utf-8, ;v=1): parameters do not change the media type, so the outcome must still be the library's (C15 neither requires nor forbids refusing such requests; C14 compares with the library)");
             let r = engine::replay_dir::<TCase, _>("C14", "twin", check_twin);
             rep.absorb("replay-tier", r);
             if rep.failed() {
